@@ -65,14 +65,44 @@ def build_items(tier: str, seed: int):
     return items
 
 
+def _variant_batch(item):
+    """One rule-option variant x every small word sequence (spec/TokSeq.tla), lint and fix alternating."""
+    k, ov, texts = item
+    o = {kk: v for kk, v in ov.items() if kk != "_label"}
+    out = []
+    for j, text in enumerate(texts):
+        t = piperec.run_entry(text, "ansi", "raw", "fix" if j % 2 else "lint", fname=f"<seq {j}> [{ov['_label']}]", tid=f"v{k}.{j}", overrides=o)
+        # keep the recording small: only runs in which a rule reported something are non-trivial for C05
+        out.append(t)
+    return out
+
+
 def run(tier: str, seed: int) -> int:
     rep = Report(PROP, tier, seed, "exploration")
     piperec.check_seams()
+    quick = tier == "quick"
     pm = run_tlc("Pipeline", cfg_text(spec="PSpec", invariants=["TypeOK", "NoLintInParseMode"]), timeout=600)
     expect_model_ok(pm, "Pipeline lifecycle")
     rep.model(pm, "per-file lifecycle state machine (bounded)")
+    from .treesuite import VOCAB
+    ts = run_tlc("TokSeq", cfg_text(constants={"NWords": len(VOCAB), "MaxLen": 2 if quick else 3}, invariants=["Bounded"]), timeout=1800)
+    expect_model_ok(ts, "TokSeq")
+    rep.model(ts, "small-scope word sequences for the per-option runs")
+    seq_texts = [" ".join(VOCAB[w - 1] for w in s_) + "\n" for s_ in ts.records if len(s_) <= 2]
+    seq_texts += ["\n".join(VOCAB[w - 1] for w in s_) + "\n" for s_ in ts.records if len(s_) == 2]      # one word per line
+    if not quick:
+        seq_texts += [" ".join(VOCAB[w - 1] for w in s_) + "\n" for s_ in ts.records if len(s_) == 3][seed % 7::7]
+    variants = rule_option_variants() + [{"rules": "all", "_label": "all-rules"}]
     items = build_items(tier, seed)
-    traces = cache.cached("pipe-c05", [tier, seed, len(items)], lambda: piperec.run_many(items))
+
+    def record():
+        out = piperec.run_many(items)
+        from ..par import pmap
+        for chunk in pmap(_variant_batch, [(k, ov, seq_texts) for k, ov in enumerate(variants)], chunksize=1):
+            out.extend(chunk)
+        return out
+
+    traces = cache.cached("pipe-c05", [tier, seed, len(items), len(variants), len(seq_texts)], record)
     rep.evaluated(len(traces))
     val = validate_traces("PipelineTrace", [piperec.strip_for_tlc(t) for t in traces], timeout=1800, batch=5000)
     rep.validation(val, "PipelineTrace")
@@ -92,7 +122,10 @@ def run(tier: str, seed: int) -> int:
             rep.nontrivial(t["id"])
     ex = next((t for t in traces if t["input"]["overrides"]), traces[0])
     rep.sample({"mode": ex["mode"], "overrides": ex["input"]["overrides"], "input": ex["input"]["text"][:120], "events": ex["events"][:5]})
-    rep.rule = ("lint/fix runs over corpus files and mutants x {all rules, one rule group, one rule with a non-default option value}; "
+    rep.extra["option_variants"] = len(variants)
+    rep.extra["small_sequences_per_variant"] = len(seq_texts)
+    rep.rule = ("lint/fix runs over corpus files and mutants x {all rules, one rule group, one rule with a non-default option value}, and every "
+                "rule-option variant x every TLC-enumerated word sequence <= 2 (same line and one word per line); "
                 "non-trivial = at least one rule reported a violation (its evaluation and fix code ran); distinct by run id")
     rep.trusted_base = ["harness/vf/piperec.py wrappers; 'Unexpected exception' prefix as written by BaseRule.crawl"]
     return rep.finish()
